@@ -112,7 +112,9 @@ func patterns(w, n int, seedv uint64) []uint64 {
 	if w < 8 {
 		mask = (uint64(1) << (8 * w)) - 1
 	}
-	base := []uint64{1, 0, mask, mask >> 1, (mask >> 1) + 1, 0x0102030405060708 & mask, 2, 0x7fc00001 & mask, 0x7ff8000000000001 & mask, 0xff, 0x80}
+	// incl. quiet and SIGNALLING NaN payloads of both float widths (a float32 -> float64 -> float32 round trip sets the quiet bit)
+	base := []uint64{1, 0, mask, mask >> 1, (mask >> 1) + 1, 0x0102030405060708 & mask, 2, 0x7fc00001 & mask, 0x7ff8000000000001 & mask, 0xff, 0x80,
+		0x7f800001 & mask, 0x7fa00000 & mask, 0xffbfffff & mask, 0x7ff0000000000001 & mask, 0xfff7ffffffffffff & mask, 0x7ff4000000000000 & mask}
 	out := make([]uint64, n)
 	for i := range out {
 		out[i] = base[(i+int(seedv))%len(base)]
